@@ -91,6 +91,8 @@ def S_inner(n):
 def S_into_bytes(n):
     def spec(e, I, O):
         assert len(O) == n
+        if 256 ** n > csmt.P_BLS:
+            return canonical_digits(e, I[0], list(O), 256, csmt.P_BLS)
         return AND(*[lt(o, 256) for o in O], eq(I[0], e.named_sum([(256 ** i, o) for i, o in enumerate(O)])))
     return spec
 
@@ -136,7 +138,7 @@ def family(tier, seed):
     for n in ([1, 2, 3] if tier == "quick" else [1, 2, 3, 4, 6]):
         vals = [r() for _ in range(2 * n)]
         E.append(ent(f"inner_product[n={n}]", "inner_product", [N] * (2 * n), vals, S_inner(n), 2 * n))
-    for n in ([1, 4, 31] if tier == "quick" else [1, 2, 4, 16, 31, 32]):
+    for n in ([1, 4, 31, 32] if tier == "quick" else [1, 2, 4, 16, 31, 32]):
         v = rnd.randrange(min(P, 1 << (8 * n)))
         E.append(ent(f"into_bytes[native,n={n}]", {"into_bytes": n}, [N], [v], S_into_bytes(n), 1, alt=[[0], [min(P, 1 << (8 * n)) - 1]]))
         bs = [rnd.randrange(256) for _ in range(n)]
